@@ -86,6 +86,11 @@ def fileKidsF (fi : Nat) (f : FileD) : Forest :=
 
 def fileF (fi : Nat) (f : FileD) : Forest := .node ⟨fi, []⟩ (fileKidsF fi f) .nil
 
+theorem leavesF_pre (rs : List Ref) : (leavesF rs).pre = rs := by
+  induction rs with
+  | nil => rfl
+  | cons r rs ih => simp [leavesF, Forest.pre, ih]
+
 /-! ### the accept methods are the generic walk -/
 theorem acceptLeaves_eq (pol : Policy) (v : Nat) : ∀ (rs : List Ref) (ws : WS),
     acceptLeaves pol v rs ws = walkForest pol v (leavesF rs) ws := by
